@@ -133,6 +133,14 @@ impl<E> Probe<E> {
 }
 
 #[cfg(feature = "verif-hooks")]
+impl<E> Probe<E> {
+    /// Whether the mutex protecting the shared state is held right now (by any thread). Never blocks.
+    pub fn is_locked(&self) -> bool {
+        matches!(self.shared.try_lock(), Err(std::sync::TryLockError::WouldBlock))
+    }
+}
+
+#[cfg(feature = "verif-hooks")]
 impl<D, E> Reader<D, E> {
     /// Returns a verification probe onto this reader's shared state.
     pub fn verif_probe(&self) -> Probe<E> {
